@@ -293,6 +293,11 @@ def _make_reduction_lambda(
     """
     new_shape, reduction_axes = _normalize_reduction_axes(a.shape, axis)
     del axis
+
+    if not reduction_axes:
+        # reducing over no axes (e.g. any reduction of a 0-d array) is the identity
+        return a
+
     indices, redn_bounds = _get_reduction_indices_bounds(a.shape,
                                                          reduction_axes)
 
